@@ -4,6 +4,7 @@ import sys
 
 from mc import core, lib
 from scoda.elements.bar import Bar
+from scoda.exceptions.tokenisation_exception import TokenisationException
 from scoda.sequences.sequence import Sequence
 from scoda.tokenisation.notelike_tokenisation import MultiTrackLargeVocabularyNotelikeTokeniser as Tok
 
@@ -46,25 +47,26 @@ def context(tier, seed):
 
 
 def units(ctx):
-    return list(range(len(plan_list(ctx["tier"]))))
+    return [(i, j) for i in range(len(plan_list(ctx["tier"]))) for j in range(4)]
 
 
 def gen_cases(unit, ctx):
-    plan = plan_list(ctx["tier"])[unit]
+    plan = plan_list(ctx["tier"])[unit[0]]
     p = ctx["p"]
     st = [0]
     for s in plan:
         st.append(st[-1] + blen(SIG[s]))
     al = []
     for b in range(len(plan)):
-        for o in (st[b], st[b] + 6, st[b + 1] - 6):
+        for o in (st[b], st[b] + 6, st[b + 1] - 12, st[b + 1] - 6):
             for d in (6, 36):
-                al.append((o, d, p + b % 2, 0, 40))
+                if o + d <= st[-1]:      # whole bars only: nothing overhangs the last planned bar
+                    al.append((o, d, p + b % 2, 0, 40))
     sets = [[]] + [[a] for a in al] + [list(c) for c in itertools.combinations(al[::2], 2) if lib.well_formed(c)]
-    if len(plan) > 4:
+    if len(plan) > 4 or (ctx["tier"] == "quick" and len(plan) >= 3):
         sets = sets[:1] + sets[1::3]
     sides = [None, [], [(6, 12, p - 12, 0, 99)], [(st[-1] - 12, 12, p - 12, 0, 99)]]
-    for ns in sets:
+    for ns in sets[unit[1]::4]:
         for side in sides:
             if not ns and not side:
                 continue
@@ -146,6 +148,11 @@ def check_case(case, ctx):
             R.flags.append("unfused_flags")
         try:
             ref = {k: meaning(t, t.tokenise(chunk(0, k))) for k in range(1, n + 1)}
+        except TokenisationException:
+            # a cut fragment whose length is no note value: the piece does not meet the tokeniser's input constraints
+            R.flags.append("piece_outside_input_constraints")
+            R.outcome = "rejected"
+            return R
         except Exception as e:  # noqa: BLE001
             R.bad("single_call_tokenisation_fails", f"flags {fl}: {type(e).__name__}: {e}")
             continue
@@ -190,6 +197,7 @@ def check_case(case, ctx):
             R.flags.append("all_partitions_explored")
     R.transitions = n_trans
     R.validated = n_trans
+    R.flags.extend(["graph_state"] * n_states)
     R.outcome = f"n{n}t{nt}"
     R.tags = {"q": q, "bars": n}
     return R
@@ -199,3 +207,8 @@ _m = sys.modules[__name__]
 run_unit = core.std_run_unit(_m)
 replay = core.std_replay(_m)
 SAMPLE_AT = 5
+
+
+def post(tot, ctx):
+    tot.extra["pieces"] = tot.n
+    tot.states = tot.flags.pop("graph_state", 0) or tot.n
